@@ -18,8 +18,8 @@ Proof. exact skip_reads_reviewed. Qed.
 Print Assumptions C16_skip_reads_reviewed.
 
 Theorem C16_define_guard_structure :
-  define_codes_before_guard = [] /\
-  define_codes_after_guard = [s "MACRO_NAME_CAPITAL"; s "MACRO_FUNC_FORBIDDEN"; s "PREPROC_CONSTANT"; s "PREPROC_CONSTANT"] /\
+  define_codes_before_guard = [s "MACRO_NAME_CAPITAL"; s "MACRO_FUNC_FORBIDDEN"] /\
+  define_codes_after_guard = [s "PREPROC_CONSTANT"; s "PREPROC_CONSTANT"] /\
   define_after_guard_calls = reviewed_define_after_guard_calls /\
   define_after_guard_targets = ["i"%string] /\
   silenced_code_mentions = reviewed_silenced_code_mentions /\
@@ -96,7 +96,7 @@ Proof. exact R_absent. Qed.
 Print Assumptions C16_R_absent.
 
 (* ---- -R CheckDefine: a run that reaches a verdict without it reaches the same one with it, minus exactly the
-   diagnostics with the codes emitted after the guard (MACRO_NAME_CAPITAL, MACRO_FUNC_FORBIDDEN, PREPROC_CONSTANT) *)
+   diagnostics with the code emitted after the guard: PREPROC_CONSTANT, the #define-value diagnostic *)
 Theorem C16_R_checkdefine_removes_only : forall (Core : Type) (es : emit_step Core), skip_filters es ->
   forall ntokens d c segs c' ds',
     run_st (S ntokens) (lift_emit es false) d (c, []) ntokens 0 [] = Ok (segs, (c', ds')) ->
@@ -104,29 +104,33 @@ Theorem C16_R_checkdefine_removes_only : forall (Core : Type) (es : emit_step Co
 Proof. exact R_checkdefine_removes_only. Qed.
 Print Assumptions C16_R_checkdefine_removes_only.
 
-Theorem C16_filter_silenced_spec : forall ds d, In d (filter_silenced ds) <->
-  In d ds /\ d_name d <> s "MACRO_NAME_CAPITAL" /\ d_name d <> s "MACRO_FUNC_FORBIDDEN" /\ d_name d <> s "PREPROC_CONSTANT".
+Theorem C16_filter_silenced_spec : forall ds d, In d (filter_silenced ds) <-> In d ds /\ d_name d <> s "PREPROC_CONSTANT".
 Proof. exact filter_silenced_spec. Qed.
 Print Assumptions C16_filter_silenced_spec.
+
+Theorem C16_silenced_is_define_value : forall c, str_in c silenced_codes = str_in c define_value_codes.
+Proof. exact silenced_is_define_value. Qed.
+Print Assumptions C16_silenced_is_define_value.
 
 Theorem C16_define_check_skip : forall o,
   define_check true o = filter (fun c => negb (str_in c silenced_codes)) (define_check false o).
 Proof. exact define_check_skip. Qed.
 Print Assumptions C16_define_check_skip.
 
-(* the property text says "removes only the #define-value diagnostics": true of macros with an upper-case,
-   parameterless name ... *)
-Theorem C16_R_checkdefine_value_only_partial : forall o, do_name_upper o = true -> do_lparen o = false ->
+(* the property text, "removes only the #define-value diagnostics": on EVERY #define line (any name, with or without
+   parameters) *)
+Theorem C16_R_checkdefine_value_only : forall o,
   define_check true o = filter (fun c => negb (str_in c define_value_codes)) (define_check false o).
-Proof. exact define_check_value_only_partial. Qed.
-Print Assumptions C16_R_checkdefine_value_only_partial.
+Proof. exact define_check_value_only. Qed.
+Print Assumptions C16_R_checkdefine_value_only.
 
-(* ... and false in general: the diagnostic about the macro NAME (and the one about function-like macros) goes too
-   [known finding C16-R-checkdefine-silences-more] *)
-Theorem C16_refuted_R_checkdefine_silences_more :
-  exists o c, In c (define_check false o) /\ ~ In c (define_check true o) /\ str_in c define_value_codes = false.
-Proof. exact define_check_silences_more. Qed.
-Print Assumptions C16_refuted_R_checkdefine_silences_more.
+(* `# define foo(x) x` keeps MACRO_NAME_CAPITAL and MACRO_FUNC_FORBIDDEN under -R CheckDefine; in general every
+   diagnostic of the define check that is not a #define-value diagnostic stays *)
+Theorem C16_R_checkdefine_keeps_name_checks : forall bad,
+  define_check true (mkdobs true false true bad) = [s "MACRO_NAME_CAPITAL"; s "MACRO_FUNC_FORBIDDEN"] /\
+  (forall o c, In c (define_check false o) -> str_in c define_value_codes = false -> In c (define_check true o)).
+Proof. exact define_check_keeps_name_checks. Qed.
+Print Assumptions C16_R_checkdefine_keeps_name_checks.
 
 (* ---- --cfile/--hfile + --filename: the statements of main()'s inline branch are the reviewed ones (with the newline
    translation), the two str.replace passes compute open()'s universal-newline translation, and so the analysis gets
@@ -185,7 +189,8 @@ Example C16_example_R :
       map d_name ds = [s "PREPROC_BAD_INDENT"; s "MACRO_NAME_CAPITAL"; s "MACRO_FUNC_FORBIDDEN"; s "PREPROC_CONSTANT";
                        s "PREPROC_BAD_INDENT"; s "PREPROC_CONSTANT"; s "PREPROC_BAD_INDENT"] /\
       run_st 4 (lift_emit toy_step true) 0 (core, []) 3 0 [] = Ok (segs, (c, filter_silenced ds)) /\
-      map d_name (filter_silenced ds) = [s "PREPROC_BAD_INDENT"; s "PREPROC_BAD_INDENT"; s "PREPROC_BAD_INDENT"]).
+      map d_name (filter_silenced ds) = [s "PREPROC_BAD_INDENT"; s "MACRO_NAME_CAPITAL"; s "MACRO_FUNC_FORBIDDEN";
+                                         s "PREPROC_BAD_INDENT"; s "PREPROC_BAD_INDENT"]).
 Proof.
   split; [exact toy_step_skip_filters|]. cbv zeta. eexists. eexists. eexists.
   split; [vm_compute; reflexivity|]. split; [vm_compute; reflexivity|]. split; vm_compute; reflexivity.
